@@ -209,3 +209,11 @@ def bern_oracle(req, impl):
     if pv <= 0.0 and any(outs):
         return "chance(p <= 0) returned true"
     return None
+
+def idx_history_oracle(req, impl):
+    """`idx:n` ops inside a ChaCha history: every index below its length"""
+    ops, toks = req.split("ops=")[1].split(","), impl.split()
+    for i, (op, t) in enumerate(zip(ops, toks)):
+        if op.startswith("idx:") and t.isdigit() and int(t) >= int(op[4:]):
+            return "op %d: index(%s) on ChaCha returned %s" % (i, op[4:], t)
+    return None
